@@ -178,6 +178,10 @@ func c18Forward(c *fw.Ctx, t *lib.Tree, kind string, a []byte, tag string) bool 
 		if forcedEntry == "" && c.Rand.Intn(40) == 0 {
 			entry = "DetectFileSymlink"
 		}
+		if forcedEntry == "" && c.Rand.Intn(40) == 0 {
+			entry = "DetectFilePipe"
+			c.Count("archives_detected_through_a_named_pipe", 1)
+		}
 		p := c18Payload{Kind: kind, In: a, Limit: lim, Pos: -1, InQ: fw.Quote(a[:minInt(len(a), 110)], 110), Entry: entry}
 		key := fw.InputKey(a, lim, entry)
 		c.Trace(func() (string, any) { return key, p })
